@@ -14,6 +14,8 @@ pub struct Case {
     pub cfg_id: usize,
     pub cert: Cert,
     pub reply: FinalReply,
+    /// NTLM negotiate flags the server's CHALLENGE leaves out (0: the Windows-like default set)
+    pub challenge_without: u32,
 }
 
 pub struct C01 {
@@ -82,6 +84,15 @@ fn structured(other_keys: &[Vec<u8>]) -> Vec<FinalReply> {
         FinalReply::SealedWithTrailing(1),
         FinalReply::SealedWithTrailing(3),
         FinalReply::SealedWithTrailing(300),
+        // a wrong value whose message is exactly 1, 2 or 3 read chunks of the link (1500 bytes) or ends next to one,
+        // and around the 4 KiB / 16 KiB (TLS record) marks
+        FinalReply::WrongPaddedTo(1499),
+        FinalReply::WrongPaddedTo(1500),
+        FinalReply::WrongPaddedTo(1501),
+        FinalReply::WrongPaddedTo(3000),
+        FinalReply::WrongPaddedTo(4096),
+        FinalReply::WrongPaddedTo(4500),
+        FinalReply::WrongPaddedTo(16384),
     ];
     for k in other_keys {
         v.push(FinalReply::OtherCertificate(k.clone()));
@@ -131,14 +142,14 @@ impl Prop for C01 {
                 let len = honest.len();
                 self.honest_len.insert((ci, format!("{:?}", cert)), len);
                 let full = tier == Tier::Thorough || (ci == 0 && cert == Cert::A) || (ci == 4 && cert == Cert::B);
-                cs.push(Case { cfg_id: ci, cert, reply: FinalReply::Honest });
+                cs.push(Case { cfg_id: ci, cert, reply: FinalReply::Honest, challenge_without: 0 });
                 let others: Vec<Vec<u8>> = match cert {
                     Cert::A => vec![key_b.clone(), key_m.clone()],
                     Cert::B => vec![key_a.clone(), key_m.clone()],
                     _ => vec![key_a.clone(), key_b.clone()],
                 };
                 for r in structured(&others) {
-                    cs.push(Case { cfg_id: ci, cert, reply: r });
+                    cs.push(Case { cfg_id: ci, cert, reply: r, challenge_without: 0 });
                 }
                 // every proper prefix of the value, correctly sealed (the value must be compared as a whole)
                 let klen = match cert {
@@ -147,19 +158,19 @@ impl Prop for C01 {
                     _ => key_a.len(),
                 };
                 for n in (0..klen).step_by(if full { 1 } else { 29 }) {
-                    cs.push(Case { cfg_id: ci, cert, reply: FinalReply::SealedPrefix(n) });
+                    cs.push(Case { cfg_id: ci, cert, reply: FinalReply::SealedPrefix(n), challenge_without: 0 });
                 }
                 let step = if full { 1 } else { 13 };
                 for bit in (0..len * 8).step_by(step) {
-                    cs.push(Case { cfg_id: ci, cert, reply: FinalReply::FlipBit(bit) });
+                    cs.push(Case { cfg_id: ci, cert, reply: FinalReply::FlipBit(bit), challenge_without: 0 });
                 }
                 for n in (0..len).step_by(if full { 1 } else { 7 }) {
-                    cs.push(Case { cfg_id: ci, cert, reply: FinalReply::Truncate(n) });
+                    cs.push(Case { cfg_id: ci, cert, reply: FinalReply::Truncate(n), challenge_without: 0 });
                 }
                 if full {
                     for d in -256i64..=256 {
                         if d != 1 {
-                            cs.push(Case { cfg_id: ci, cert, reply: FinalReply::Offset(d) });
+                            cs.push(Case { cfg_id: ci, cert, reply: FinalReply::Offset(d), challenge_without: 0 });
                         }
                     }
                     let keylen = if cert == Cert::B { key_b.len() } else { key_a.len() };
@@ -168,9 +179,49 @@ impl Prop for C01 {
                             if j == 0 && !neg {
                                 continue; // + 2^0 is the honest value
                             }
-                            cs.push(Case { cfg_id: ci, cert, reply: FinalReply::Pow2(j, neg) });
+                            cs.push(Case { cfg_id: ci, cert, reply: FinalReply::Pow2(j, neg), challenge_without: 0 });
                         }
                     }
+                }
+            }
+        }
+        // carry propagation of key + 1: a raw 32-byte key starting with 0xFF (Ed25519), every offset -300..300
+        let key_ff = acceptor(Cert::Ed25519FF)?.1;
+        for ci in [0usize, 1] {
+            cs.push(Case { cfg_id: ci, cert: Cert::Ed25519FF, reply: FinalReply::Honest, challenge_without: 0 });
+            for r in structured(&[key_a.clone(), key_b.clone()]) {
+                // a "prefix" as long as the (32-byte) key is the honest value itself
+                if matches!(r, FinalReply::SealedPrefix(n) if n >= key_ff.len()) {
+                    continue;
+                }
+                cs.push(Case { cfg_id: ci, cert: Cert::Ed25519FF, reply: r, challenge_without: 0 });
+            }
+            for d in -300i64..=300 {
+                if d != 1 {
+                    cs.push(Case { cfg_id: ci, cert: Cert::Ed25519FF, reply: FinalReply::Offset(d), challenge_without: 0 });
+                }
+            }
+            for j in 0..key_ff.len() * 8 {
+                for neg in [false, true] {
+                    if j == 0 && !neg {
+                        continue;
+                    }
+                    cs.push(Case { cfg_id: ci, cert: Cert::Ed25519FF, reply: FinalReply::Pow2(j, neg) , challenge_without: 0 });
+                }
+            }
+        }
+        // the CHALLENGE of the earlier round leaves a flag out: the proof of the final round must still be demanded
+        for without in [vref::ntlm::F_SIGN, vref::ntlm::F_ALWAYS_SIGN, vref::ntlm::F_SEAL, vref::ntlm::F_SIGN | vref::ntlm::F_ALWAYS_SIGN, vref::ntlm::F_56, vref::ntlm::F_TARGET_TYPE_SERVER] {
+            for ci in [0usize, 1, 4] {
+                let cert = Cert::A;
+                cs.push(Case { cfg_id: ci, cert, reply: FinalReply::Honest, challenge_without: without });
+                for r in structured(&[key_b.clone(), key_m.clone()]) {
+                    cs.push(Case { cfg_id: ci, cert, reply: r, challenge_without: without });
+                }
+                // every bit of the 16-byte signature that precedes the sealed value, and a few beyond
+                let len = *self.honest_len.get(&(ci, format!("{:?}", cert))).unwrap_or(&0);
+                for bit in (0..len * 8).step_by(if tier == Tier::Thorough { 1 } else { 5 }) {
+                    cs.push(Case { cfg_id: ci, cert, reply: FinalReply::FlipBit(bit), challenge_without: without });
                 }
             }
         }
@@ -195,10 +246,10 @@ impl Prop for C01 {
     }
     fn describe(&self, idx: u64) -> Value {
         let c = &self.cases[idx as usize];
-        json!({"idx": idx, "config": configs()[c.cfg_id], "certificate": c.cert, "final_round_reply": c.reply})
+        json!({"idx": idx, "config": configs()[c.cfg_id], "certificate": c.cert, "final_round_reply": c.reply, "challenge_flags_left_out": format!("{:#x}", c.challenge_without)})
     }
     fn rule(&self) -> String {
-        "cases = (connector configuration, server certificate, reply of the server in the final CredSSP round). Configurations: 3 credential sets x password|hash x {plain, restricted admin, blank credentials}; certificates RSA-2048, EC P-256 (+ an untrusted RSA key for the relay case). Replies: honest; every single-bit flip of the honest TSRequest; key+d for every d in [-256,256] except 1 and key +- 2^j for every j up to 248, correctly sealed; sealed with client-to-server keys / another session key / wrong signing key / wrong sealing key / advanced cipher stream; honest reply for another certificate's key (relay); reflection of the client's token; every truncation; extensions; BER long lengths, extra field, missing/empty pubKeyAuth, wrong context tag, versions 0/3/6; EOF. Full alphabet for two configurations in quick (every 13th bit / 7th truncation elsewhere), for all in thorough. Oracle: honest => credentials released and well formed; must-reject => connect returns Err and the server's TLS endpoint receives zero application bytes after its reply; don't-care (same integer, other spelling) => if accepted the value was right. Non-trivial: every reply but the honest one.".into()
+        "cases = (connector configuration, server certificate, reply of the server in the final CredSSP round). Configurations: 3 credential sets x password|hash x {plain, restricted admin, blank credentials}; certificates RSA-2048, EC P-256 (+ an untrusted RSA key for the relay case). Replies: honest; every single-bit flip of the honest TSRequest; key+d for every d in [-256,256] except 1 and key +- 2^j for every j up to 248, correctly sealed; sealed with client-to-server keys / another session key / wrong signing key / wrong sealing key / advanced cipher stream; honest reply for another certificate's key (relay); reflection of the client's token; every truncation; extensions; BER long lengths, extra field, missing/empty pubKeyAuth, wrong context tag, versions 0/3/6; EOF. Full alphabet for two configurations in quick (every 13th bit / 7th truncation elsewhere), for all in thorough. Also: an Ed25519 certificate whose raw key starts with 0xFF (carry of key+1) with every offset -300..300 and +-2^j; the CHALLENGE of the earlier round leaving out SIGN / ALWAYS_SIGN / SEAL / 56 / TARGET_TYPE flags x structured replies x bit flips. Oracle: honest => credentials released and well formed; must-reject => connect returns Err, the server's TLS endpoint receives zero application bytes after its reply, and the client does not ask the (still open) transport for more bytes after the reply was delivered; don't-care (same integer, other spelling) => if accepted the value was right. Non-trivial: every reply but the honest one.".into()
     }
     fn assumptions(&self) -> Vec<String> {
         vec![
@@ -216,7 +267,8 @@ impl Prop for C01 {
     fn run_case(&mut self, idx: u64) -> Outcome {
         let c = self.cases[idx as usize].clone();
         let cfg = configs()[c.cfg_id].clone();
-        let p = ServerParams { selected: 2, final_reply: c.reply.clone(), ..Default::default() };
+        let mut p = ServerParams { selected: 2, final_reply: c.reply.clone(), ..Default::default() };
+        p.ntlm.flags &= !c.challenge_without;
         let t = match tls_connect(&cfg, p, vec![], c.cert) {
             Ok(t) => t,
             Err(e) => return Outcome::fail("setup", "machinery", e),
@@ -238,7 +290,20 @@ impl Prop for C01 {
         // the version INTEGER content byte of the honest reply: 30 len.. a0 03 02 01 <v>
         let honest = pr.srv.sent.iter().find(|s| s.0 == "cssp_pubkey").map(|s| s.1.clone()).unwrap_or_default();
         let vpos = honest.windows(4).position(|w| w == [0xa0, 0x03, 0x02, 0x01]).map(|p| ((p + 4) * 8, (p + 5) * 8));
-        let class = class_of(&c.reply, vpos);
+        let mut class = class_of(&c.reply, vpos);
+        if class == 0 && c.challenge_without != 0 {
+            // a server leaving out a flag the client asked for: the client may refuse to go on
+            class = 2;
+        }
+        // a client that keeps reading after the final reply would wait for ever on a live connection
+        let waits = {
+            let sh = t.sh.borrow();
+            let last_sw = sh.trace.iter().rposition(|e| matches!(e, crate::memlink::Ev::SW(_)));
+            match last_sw {
+                Some(i) => sh.trace[i..].iter().filter(|e| matches!(e, crate::memlink::Ev::CREof)).count(),
+                None => 0,
+            }
+        };
         let released = pr.srv.creds.is_some() || pr.srv.log.iter().any(|m| m.name == "cssp_credentials");
         let after = pr.srv.bytes_after_final_reply;
         let kind = format!("{:?}", c.reply).split(|ch| ch == '(' || ch == ' ').next().unwrap_or("").to_string();
@@ -259,6 +324,10 @@ impl Prop for C01 {
                 }
                 if t.client.is_some() {
                     return Outcome::fail("mismatch", format!("connect-ok-after-{}", kind), format!("reply {:?}", c.reply));
+                }
+                // (Eof: the server closed; Truncate(0): the server sent nothing at all — waiting is then legitimate)
+                if waits > 0 && !matches!(c.reply, FinalReply::Eof | FinalReply::Truncate(0)) {
+                    return Outcome::fail("mismatch", format!("client-waits-for-more-input-after-{}", kind), format!("reply {:?}: the whole reply was delivered and the connection stays open, yet the client asked the transport for more bytes {} time(s) instead of failing: the attempt would stay pending", c.reply, waits));
                 }
                 Outcome::pass(format!("rejected-{}:{}", kind, err_class(t.error.as_deref().unwrap_or(""))), true)
             }
